@@ -11,6 +11,7 @@ from . import restricted_generalized_time_from_datetime
 from .per import to_int
 from .per import to_byte_array
 from .per import integer_as_number_of_bits
+from .per import is_in_size_range
 from .per import PermittedAlphabet
 from .per import Type
 from .per import Boolean
@@ -115,7 +116,7 @@ class ArrayType(per.ArrayType):
 
     def encode(self, data, encoder):
         if self.has_extension_marker:
-            if self.minimum <= len(data) <= self.maximum:
+            if is_in_size_range(self.minimum, self.maximum, len(data)):
                 encoder.append_bit(0)
             else:
                 encoder.append_bit(1)
@@ -221,7 +222,9 @@ class BitString(per.BitString):
         data, number_of_bits = data
 
         if self.has_extension_marker:
-            if self.minimum <= number_of_bits <= self.maximum:
+            if is_in_size_range(self.minimum,
+                                self.maximum,
+                                number_of_bits):
                 encoder.append_bit(0)
             else:
                 raise NotImplementedError(
@@ -263,7 +266,7 @@ class OctetString(per.OctetString):
 
     def encode(self, data, encoder):
         if self.has_extension_marker:
-            if self.minimum <= len(data) <= self.maximum:
+            if is_in_size_range(self.minimum, self.maximum, len(data)):
                 encoder.append_bit(0)
             else:
                 encoder.append_bit(1)
